@@ -1,14 +1,19 @@
 import Femio.Driver.Proto
+import Femio.Driver.C02
+import Femio.Driver.C04
 import Femio.Driver.C05
 import Femio.Driver.C07
 import Femio.Driver.C08
+import Femio.Driver.C09
 import Femio.Driver.C13
+import Femio.Driver.C15
+import Femio.Driver.C17
 import Femio.Driver.C19
 /-! `femio_driver`: line-protocol front end of the executable model (imports core-only modules). -/
 open Femio
 
 def handlers : List (List String → Option String) :=
-  [ C05.handle, C07.handle, C08D.handle, C13.handle, C19.handle ]
+  [ C02.handle, C04.handle, C05.handle, C07.handle, C08D.handle, C09.handle, C13.handle, C15D.handle, C17D.handle, C19.handle ]
 
 def handleLine (line : String) : String :=
   let toks := Proto.tokens line
